@@ -479,7 +479,7 @@ func runC18(c *core.Ctx) {
 	if done < maxN {
 		c.Cap(fmt.Sprintf("A1 completed only to %d nodes", done))
 	}
-	c.R.Bound = fmt.Sprintf("A1 value trees <= %d nodes; A2 strings <= 3 runes over %d runes; A3 numbers", done, len(c18Runes))
+	c.R.Bound = fmt.Sprintf("A1 value trees <= %d nodes; A2 strings <= 3 runes over %d runes; A3 numbers; A4 24 map keys that read like other tokens", done, len(c18Runes))
 
 	// A2 strings
 	var strs []string
@@ -530,6 +530,25 @@ func runC18(c *core.Ctx) {
 			}
 		}
 		c.Sample(func() interface{} { return map[string]interface{}{"A2_string": fmt.Sprintf("%q", s)} })
+	}
+	// A4 map keys that read like something else when written bare: keywords of the value grammar, digits first, number
+	// spellings, names of the document grammar; as the key of a map at the top, inside a list and inside another map
+	if c.Shard == 0 {
+		for _, k := range []string{"true", "false", "null", "1", "42", "007", "2nd", "1e3", "3_x", "0x1", "_", "__typename", "on", "query", "fragment", "e", "E1", "-1", "a-b", "a.b", "$v", "@d", "True", "NULL"} {
+			for _, v := range []interface{}{
+				map[string]interface{}{k: int64(7)},
+				map[string]interface{}{k: "s", "z": map[string]interface{}{k: []interface{}{int64(1)}}},
+				[]interface{}{map[string]interface{}{k: nil}, map[string]interface{}{"a": int64(1), k: true}},
+			} {
+				for _, indent := range []int{-1, 0, 2} {
+					for _, sdl := range []bool{true, false} {
+						c.R.Distinct++
+						c.Nontrivial()
+						check18(c, v, indent, true, sdl, "map-key", "reads-like-another-token")
+					}
+				}
+			}
+		}
 	}
 	if c.Shard == 0 {
 		for _, s := range invalid {
